@@ -10,6 +10,7 @@ import ClairModel.Model.LayerFS
     del <hex fp> <hex whiteout path>      fileIsDeleted
     path <hex p>                          filepath.Base / Dir / Clean
     flat <stack>                          flatten of a layer stack (Model/LayerFS.lean)
+    e2e <dbs> <table> <stack>             Tame?, indexModel and scanImage on the abstraction of a real history
 
   <arts>   = `-` | layer `|` layer ...
   layer    = hash `;` pkgs `;` dists `;` repos `;` files          (items separated by `,`)
@@ -110,6 +111,7 @@ def stepLine (_ : Unit) (l : String) : Unit × String :=
     | some fp, some wh => toString (fileIsDeleted fp wh)
     | _, _ => "bad-op"
   | ["flat", s] => ClairModel.LayerFS.flatLine s
+  | ["e2e", dbs, table, stack] => ClairModel.LayerFS.e2eLine dbs table stack
   | ["path", p] =>
     match hexStr p with
     | some p => s!"{strHex (base p)} {strHex (dir p)} {strHex (clean p)}"
